@@ -1,3 +1,4 @@
+#define _GNU_SOURCE
 /* enc.c — C11 (mode c11: every encoding decodes its own output; streaming
  * RLE decoder explored as an explicit state machine) and C12 (mode c12: bytes
  * follow the Parquet encoding specification, both directions against ref/). */
@@ -260,7 +261,7 @@ static void stage_stream(void) {
         for (int nr = 1; nr <= nr_max; nr++) {
             int combos = 1; for (int i = 0; i < nr; i++) combos *= 5;
             for (int c = 0; c < combos; c++)
-                for (int src = 0; src <= REF_H_NFORMS; src++) {     /* 0 = carquet's own encoder, 1.. = reference forms */
+                for (int src = C12 ? 1 : 0; src <= REF_H_NFORMS; src++) {     /* 0 = carquet's own encoder (C11 only), 1.. = reference forms */
                     if (!mc_next()) continue;
                     int n = 0, x = c;
                     for (int r = 0; r < nr; r++) { int len = RL[x % 5]; x /= 5; for (int k = 0; k < len; k++) v[n++] = pool[r % (bw == 1 ? 2 : 3)]; }
@@ -474,11 +475,16 @@ static bool ba_equal(const carquet_byte_array_t* a, const ref_str* b, int n) {
     for (int i = 0; i < n; i++) { if (a[i].length != (int32_t)b[i].n) return false; if (b[i].n && memcmp(a[i].data, b[i].p, b[i].n)) return false; }
     return true;
 }
+static int g_str_layout;
 static void check_strings(const ref_str* v, int n, const char* what) {
     char key[160];
     carquet_byte_array_t* in = mc_exact(NULL, sizeof(carquet_byte_array_t) * (size_t)(n + 1));
     size_t total = 0;
-    for (int i = 0; i < n; i++) { in[i].data = v[i].n ? mc_exact(v[i].p, v[i].n) : NULL; in[i].length = (int32_t)v[i].n; total += v[i].n; }
+    /* layout of the caller's values: 0 = every value in its own exact-size block; 1 = slices of one shared block (the longest values first, every value at its first occurrence), so that values which are
+     * prefixes of one another start at the same address */
+    uint8_t* shared = NULL; size_t shn = 0;
+    if (g_str_layout == 1) { size_t cap = 1; for (int i = 0; i < n; i++) cap += v[i].n; shared = mc_exact(NULL, cap); for (uint32_t L = 400; L >= 1; L--) for (int i = 0; i < n; i++) if (v[i].n == L && !(shn >= L && memmem(shared, shn, v[i].p, L))) { memcpy(shared + shn, v[i].p, L); shn += L; } }
+    for (int i = 0; i < n; i++) { in[i].data = !v[i].n ? NULL : g_str_layout == 1 ? (uint8_t*)memmem(shared, shn, v[i].p, v[i].n) : mc_exact(v[i].p, v[i].n); in[i].length = (int32_t)v[i].n; total += v[i].n; if (v[i].n && !in[i].data) mc_harness_error("shared layout: value not found"); }
     carquet_byte_array_t* out = mc_exact(NULL, sizeof(carquet_byte_array_t) * (size_t)(n + 1));
     ref_str* rout = mc_exact(NULL, sizeof(ref_str) * (size_t)(n + 1));
     uint8_t* work = mc_exact(NULL, total + 1); uint8_t* rwork = mc_exact(NULL, total + 1);
@@ -518,7 +524,7 @@ static void check_strings(const ref_str* v, int n, const char* what) {
             free(enc); ref_buf_free(&rb);
         }
     }
-    for (int i = 0; i < n; i++) free(in[i].data);
+    if (g_str_layout == 1) free(shared); else for (int i = 0; i < n; i++) free(in[i].data);
     free(in); free(out); free(rout); free(work); free(rwork);
 }
 static void stage_strings(void) {
@@ -534,7 +540,7 @@ static void stage_strings(void) {
             mc_desc("strings:n=%d;code=%d", n, c);
             mc_case_key(mc_mix(0x51, ((uint64_t)n << 32) | (uint32_t)c));
             if (n >= 2) mc_nontrivial();
-            check_strings(v, n, w);
+            check_strings(v, n, w); g_str_layout = 1; check_strings(v, n, w); g_str_layout = 0;      /* separate blocks, then slices of one block */
         }
     }
     mc_stage("strings.shared-prefix-families");
@@ -884,7 +890,7 @@ static void enumerate(void) {
         mc_assume("reference encoders/decoders in /verif/ref follow the Parquet encodings specification; they were cross-checked against each other (ref encode -> ref decode) by bin/selftest");
     }
     stage_hybrid();
-    if (!C12) stage_stream();
+    stage_stream();      /* C12: reference-encoded streams (multi-group bit-packed runs, padded and zero-length runs) through the streaming decoder under every chunking */
     stage_bitpack();
     stage_bitio();
     stage_delta();
